@@ -58,3 +58,17 @@ func ClientTLS() *tls.Config {
 	tlsOnce.Do(genTLS)
 	return clientTLS.Clone()
 }
+
+// ServerTLSVia returns a server configuration that supplies the per-process certificate in one of the three ways
+// crypto/tls accepts: "certs" (Certificates), "getcert" (GetCertificate only), "getconfig" (GetConfigForClient only).
+func ServerTLSVia(kind string) *tls.Config {
+	base := ServerTLS()
+	switch kind {
+	case "getcert":
+		cert := base.Certificates[0]
+		return &tls.Config{GetCertificate: func(*tls.ClientHelloInfo) (*tls.Certificate, error) { return &cert, nil }}
+	case "getconfig":
+		return &tls.Config{GetConfigForClient: func(*tls.ClientHelloInfo) (*tls.Config, error) { return ServerTLS(), nil }}
+	}
+	return base
+}
